@@ -1127,7 +1127,10 @@ class Server:
             raise NotImplementedError(message)
 
         if connection.future.user.done():
-            connection.current_directory = connection.user.home_path
+            # home_path can be spelled with "..": working directory is
+            # kept in its resolved form
+            _, home = self.get_paths(connection, connection.user.home_path)
+            connection.current_directory = home
             if connection.user not in self.throttle_per_user:
                 throttle = StreamThrottle.from_limits(
                     connection.user.read_speed_limit,
